@@ -487,6 +487,10 @@ def np_norm(interp, name, args, kw, st, node):
     if b.get("ord") is not None and b["ord"].kind != "none":
         parts.append(("ord", b["ord"].term))
     term = T("norm", *parts)
+    axn_ = axis_of(b.get("axis"), rank)
+    if rank == 2 and axn_ in (0, 1) and (b.get("ord") is None or b["ord"].kind == "none") and (b.get("keepdims") is None or b["keepdims"].kind == "none"):
+        # row / column norms: sqrt of the diagonal of the Gram matrix (the form sums of squares take)
+        term = T("sqrt", T("diagof", T("matmul", x.term, T("T", x.term)) if axn_ == 1 else T("matmul", T("T", x.term), x.term)))
     if rsh == ():
         return V("arr", term, shape=(), labels=x.labels, orig=frozenset([FRESH]), loc=fresh_id())
     return fresh_arr(term, rsh, x.labels)
